@@ -4,6 +4,7 @@
 set -u
 cd /verif
 ./build.sh || exit 2
+"$(dirname "$(readlink -f "$0")")/tools/cacheguard.sh" 2>/dev/null || "$(dirname "$(readlink -f "$0")")/cacheguard.sh" 2>/dev/null
 export GOFLAGS=-mod=mod GOPROXY=off GOSUMDB=off GOTOOLCHAIN=local CGO_ENABLED=0; unset GOWORK
 one() {
   d=$1; id=$(basename $d)
